@@ -5,12 +5,21 @@ from props.common import *
 ID = 'C13'
 COQ_PROPS = ['Props/C13.v']
 COQ_IMPORTS = ['Prims', 'CaseLib', 'BitsCore', 'Search', 'Store']
-RULE = ('pairs and triples over (class, content, length incl. 1999/2000/2001/3601/8193, route, pos); equal contents, single-bit differences at the start, middle (outside the hashed ends) '
+RULE = ('non-promotable operands of every kind (ints incl. huge, bools, floats incl. nan/inf/-0.0, Decimal, Fraction, complex, numpy scalars, singletons, types, callables, objects with raising special methods), '
+        'as written, reflected and through containers; objects derived from objects with a history (hashed, used as keys, compared) by copy / deepcopy / pickle (protocols 2-5) / conversion / operators, and '
+        'objects, dicts, sets pickled by one interpreter and loaded by another with a different PYTHONHASHSEED, each probed against freshly built equal and unequal bitstrings of all four classes; '
+        'pairs and triples over (class, content, length incl. 1999/2000/2001/3601/8193, route, pos); equal contents, single-bit differences at the start, middle (outside the hashed ends) '
         'and end; promotable right operands (str, bytes, list, bitarray) and non-promotable ones (int, float, None, object, dict); hash input captured at run time and compared with the model; '
         'non-trivial = both sides non-empty; distinct by arguments')
 ASSUMPTIONS = ['hash() of a tuple is a function of the tuple (only congruence is used)']
 
 def gen_cases(rng, tier):
+    yield from _gen_base(rng, tier)
+    yield from gen_odd(rng, tier)
+    yield from gen_derive(rng, tier)
+    yield from gen_xproc(rng, tier)
+
+def _gen_base(rng, tier):
     N = 300 if tier == 'quick' else 4000
     lens = [0, 1, 7, 8, 9, 64, 100, 1599, 1600, 1601, 1999, 2000, 2001, 2002, 3601, 8193]
     for i in range(N):
@@ -45,6 +54,400 @@ def gen_cases(rng, tier):
         a = rand_bits(rng, n)
         yield {'op': 'triple', 'a': a, 'cs': [rng.choice(CLASSES) for _ in range(3)], 'rs': [rng.choice(ROUTES) for _ in range(3)], 'same': rng.random() < 0.7}
 
+
+# ---------------------------------------------------------------------------------------------------------------------------------
+# Non-promotable right-hand (and, reflected, left-hand) operands: numbers of every kind and value, singletons, types, callables,
+# objects with unhelpful special methods.  == is False, != is True, nothing is raised.
+# ---------------------------------------------------------------------------------------------------------------------------------
+class _RaisingRepr:
+    def __repr__(self): raise ValueError('no repr')
+    def __str__(self): raise OverflowError('no str')
+    def __format__(self, spec): raise ZeroDivisionError('no format')
+class _RaisingIterTE:
+    def __iter__(self): raise TypeError('not really iterable')
+class _RaisingIndex:
+    def __index__(self): raise ValueError('no index')
+class _HasIndex:
+    def __index__(self): return 3
+class _HasIntFloat:
+    def __int__(self): raise OverflowError('no int')
+    def __float__(self): raise ValueError('no float')
+class _RaisingBool:
+    def __bool__(self): raise ValueError('no truth value')
+class _RaisingLen:
+    def __len__(self): raise ValueError('no len')
+class _RaisingGetattr:
+    def __getattr__(self, name): raise ValueError(name)
+class _EqNotImplemented:
+    def __eq__(self, other): return NotImplemented
+    def __ne__(self, other): return NotImplemented
+    __hash__ = None
+class _MyInt(int): pass
+class _MyFloat(float): pass
+class _Slotted:
+    __slots__ = ('_bitstore',)
+class _HasBitstoreAttr:
+    _bitstore = None
+    len = 0
+
+def _np(name, arg):
+    try:
+        import numpy
+        return getattr(numpy, name)(arg)
+    except ImportError:
+        return float(arg)
+
+def _odd_table():
+    import decimal, fractions, datetime, re, sys, enum, bitstring
+    D, F = decimal.Decimal, fractions.Fraction
+    class _E(enum.Enum): A = 1
+    class _IE(enum.IntEnum): A = 1; Z = 0
+    return {
+        # ints and bools (content-dependent ones are made in odd_operand)
+        'int0': lambda: 0, 'int1': lambda: 1, 'int_neg': lambda: -3, 'int5': lambda: 5, 'int8': lambda: 8, 'true': lambda: True, 'false': lambda: False,
+        'int_2p63': lambda: 2 ** 63, 'int_2p64': lambda: 2 ** 64, 'int_m2p63': lambda: -2 ** 63 - 1, 'int_1e400': lambda: 10 ** 400, 'int_m1e400': lambda: -10 ** 400, 'int_4299digits': lambda: 10 ** 4298 + 7,
+        'int_huge_digits': lambda: 10 ** 5000, 'int_neg_huge_digits': lambda: -(10 ** 4300), 'int_shift_huge': lambda: 1 << 100000,
+        'myint0': lambda: _MyInt(0), 'myint8': lambda: _MyInt(8), 'intenum': lambda: _IE.A, 'intenum0': lambda: _IE.Z,        # (an enum.IntFlag member is iterable, hence promotable: not here)
+        # floats
+        'f0': lambda: 0.0, 'fm0': lambda: -0.0, 'f1': lambda: 1.0, 'f8': lambda: 8.0, 'f1_5': lambda: 1.5, 'fneg': lambda: -2.25, 'f1e308': lambda: 1e308, 'fm1e308': lambda: -1.7976931348623157e308, 'fdenorm': lambda: 5e-324,
+        'nan': lambda: float('nan'), 'mnan': lambda: -float('nan'), 'inf': lambda: float('inf'), 'minf': lambda: float('-inf'), 'myfloat_nan': lambda: _MyFloat('nan'), 'myfloat_inf': lambda: _MyFloat('inf'), 'myfloat1': lambda: _MyFloat(1),
+        # decimals, fractions, complex
+        'dec_nan': lambda: D('NaN'), 'dec_mnan': lambda: D('-NaN'), 'dec_snan': lambda: D('sNaN'), 'dec_nan_payload': lambda: D('NaN123'), 'dec_inf': lambda: D('Infinity'), 'dec_minf': lambda: D('-Infinity'),
+        'dec1_5': lambda: D('1.5'), 'dec8': lambda: D('8'), 'dec0': lambda: D('0'), 'dec_m0': lambda: D('-0'), 'dec_1e1000': lambda: D('1E+1000'), 'dec_1em1000': lambda: D('1E-1000'), 'dec_huge': lambda: D('1E+999999'),
+        'frac_third': lambda: F(1, 3), 'frac0': lambda: F(0), 'frac8': lambda: F(8, 1), 'frac_huge': lambda: F(10 ** 400, 3), 'frac_tiny': lambda: F(1, 10 ** 400),
+        'cplx': lambda: 1 + 2j, 'cplx0': lambda: 0j, 'cplx8': lambda: complex(8, 0), 'cplx_nan': lambda: complex('nan'), 'cplx_inf': lambda: complex('inf'), 'cplx_nan_nan': lambda: complex(float('nan'), float('nan')), 'cplx_minf_j': lambda: complex(0, float('-inf')),
+        # numpy scalars (direct comparison only: the reflected one is numpy's business)
+        'np_int64': lambda: _np('int64', 5), 'np_uint8_0': lambda: _np('uint8', 0), 'np_float64_nan': lambda: _np('float64', 'nan'), 'np_float32_inf': lambda: _np('float32', 'inf'), 'np_float16_1': lambda: _np('float16', 1),
+        'np_bool': lambda: _np('bool_', True), 'np_complex_nan': lambda: _np('complex128', 'nan'),
+        # singletons, types, callables, modules, assorted library and standard-library objects
+        'none': lambda: None, 'object': lambda: object(), 'ellipsis': lambda: Ellipsis, 'notimplemented': lambda: NotImplemented, 'type_int': lambda: int, 'type_float': lambda: float, 'type_type': lambda: type,
+        'cls_Bits': lambda: bitstring.Bits, 'cls_BitStream': lambda: bitstring.BitStream, 'builtin_len': lambda: len, 'lambda': lambda: (lambda: 0), 'module': lambda: sys, 'module_bitstring': lambda: bitstring,
+        'slice': lambda: slice(1, 2), 'slice_none': lambda: slice(None), 'date': lambda: datetime.date(2020, 1, 1), 'timedelta0': lambda: datetime.timedelta(0), 'regex': lambda: re.compile('0b1'),
+        'enum': lambda: _E.A, 'dtype': lambda: bitstring.Dtype('uint8'), 'options': lambda: bitstring.options, 'exception': lambda: ValueError('0b1'), 'exc_class': lambda: TypeError, 'bound_method': lambda: bitstring.Bits('0b1').find,
+        'property': lambda: bitstring.Bits.bin, 'code': lambda: (lambda: 0).__code__, 'weakref': lambda: __import__('weakref').ref(_Slotted),
+        # objects whose special methods are unhelpful
+        'raising_repr': lambda: _RaisingRepr(), 'raising_iter_typeerror': lambda: _RaisingIterTE(), 'raising_index': lambda: _RaisingIndex(), 'has_index': lambda: _HasIndex(), 'raising_int_float': lambda: _HasIntFloat(),
+        'raising_bool': lambda: _RaisingBool(), 'raising_len': lambda: _RaisingLen(), 'raising_getattr': lambda: _RaisingGetattr(), 'eq_notimplemented': lambda: _EqNotImplemented(), 'slotted': lambda: _Slotted(),
+        'has_bitstore_attr': lambda: _HasBitstoreAttr(),
+    }
+_ODD = None
+ODD_KEYS_CONTENT = ['int_len', 'int_uint', 'float_len', 'float_uint', 'bool_first', 'int_m_uint', 'dec_uint', 'frac_uint', 'cplx_uint', 'int_hash']
+NO_REFLECT = ('np_',)          # numpy scalars look inside the other operand themselves
+# KNOWN_OPEN: sub-classes that are not generated because the unchanged library is known to violate the property text on them. Empty: an int with more than 4300
+# decimal digits as operand of == / != used to raise ValueError (integer string conversion limit, from the text of the TypeError built for an integer operand;
+# reproducer bitstring.Bits() == 10**4300) - repaired in /repo as D65, so 'int_huge_digits', 'int_neg_huge_digits', 'int_shift_huge' are generated.
+KNOWN_OPEN = set()
+
+def odd_keys():
+    global _ODD
+    if _ODD is None: _ODD = _odd_table()
+    return [k for k in _ODD if k not in KNOWN_OPEN] + ODD_KEYS_CONTENT
+
+def odd_operand(key, bits):
+    import decimal, fractions
+    global _ODD
+    if _ODD is None: _ODD = _odd_table()
+    u = int(bits, 2) if bits else 0
+    if key == 'int_len': return len(bits)
+    if key == 'int_uint': return u
+    if key == 'int_m_uint': return -u
+    if key == 'float_len': return float(len(bits))
+    if key == 'float_uint': return float(u) if u < 2 ** 1000 else float('inf')
+    if key == 'bool_first': return bits[:1] == '1'
+    if key == 'dec_uint': return decimal.Decimal(u)
+    if key == 'frac_uint': return fractions.Fraction(u, 1)
+    if key == 'cplx_uint': return complex(float(u) if u < 2 ** 1000 else 0.0, 0)
+    if key == 'int_hash':
+        import bitstring
+        return hash(bitstring.Bits(bin=bits))
+    return _ODD[key]()
+
+def gen_odd(rng, tier):
+    keys = odd_keys()
+    lens = [0, 1, 1, 7, 8, 8, 9, 32, 64, 100, 2001, 4096]
+    reps = 1 if tier == 'quick' else 12
+    for rep in range(reps):
+        for k in keys:
+            n = rng.choice(lens)
+            a = rand_bits(rng, n)
+            yield {'op': 'odd', 'ca': CLASSES[(rep + keys.index(k)) % 4] if rep < 4 else rng.choice(CLASSES), 'a': a, 'ra': rng.choice(ROUTES), 'pa': rng.choice([None, 0, n // 2, n]), 'operand': k,
+                   'lsb0': rng.random() < 0.15, 'used': rng.random() < 0.3}
+
+# ---------------------------------------------------------------------------------------------------------------------------------
+# Objects obtained FROM objects that already have a history (hashed, used as keys, compared, read): copies, deep copies, pickles of every
+# protocol, conversions, and derived values - in this interpreter (derive) and pickled by one interpreter, loaded by another one whose
+# hash randomisation differs (xproc).  Equal contents <=> ==, equal hashes, interchangeable as keys and members.
+# ---------------------------------------------------------------------------------------------------------------------------------
+PRE_OPS = ['hash', 'dictkey', 'setmember', 'eq_same', 'eq_str', 'eq_other', 'read_props', 'hash_lsb0', 'frozenset', 'hash_twice', 'find', 'copy_kept', 'bool_len']
+DERIVATIONS = ['pickle2', 'pickle3', 'pickle4', 'pickle5', 'deepcopy', 'copy', 'ctor_same', 'ctor_Bits', 'ctor_ConstBitStream', 'ctor_BitArray', 'ctor_BitStream', 'slice_all', 'add_empty', 'radd_empty', 'mul1',
+               'deepcopy_in_dict', 'pickle_in_set', 'pickle_twice', 'append1', 'prepend0', 'slice1', 'slice_last', 'invert', 'reversed', 'via_mutable_flip', 'via_mutable_append', 'and_self', 'xor_ones', 'shift1', 'join2', 'cut_first']
+
+def apply_pre(o, pre, bits):
+    """give the object a history; returns things that must be kept alive"""
+    import bitstring
+    keep = []
+    hashable = type(o).__name__ in ('Bits', 'ConstBitStream')
+    for p in pre:
+        if p in ('hash', 'hash_twice'):
+            if hashable: keep.append(hash(o)); keep.append(hash(o) if p == 'hash_twice' else 0)
+        elif p == 'dictkey':
+            if hashable: d = {o: 1}; keep.append(d[o]); keep.append(d)
+        elif p == 'setmember':
+            if hashable: st = {o}; keep.append(o in st); keep.append(st)
+        elif p == 'frozenset':
+            if hashable: keep.append(frozenset([o, o]))
+        elif p == 'eq_same': keep.append(o == bitstring.Bits(bin=bits))
+        elif p == 'eq_str': keep.append(o == ('0b' + bits if bits else ''))
+        elif p == 'eq_other': keep.append(o == bitstring.BitArray(bin=bits + '1')); keep.append(o != 5)
+        elif p == 'read_props': keep.append((o.bin, len(o), o.tobytes(), o.hex if len(bits) % 4 == 0 else None, o.uint if bits else None))
+        elif p == 'hash_lsb0':
+            if hashable:
+                bitstring.options.lsb0 = True
+                try: keep.append(hash(o))
+                finally: bitstring.options.lsb0 = False
+        elif p == 'find': keep.append(o.find('0b1')); keep.append(o.count(1))
+        elif p == 'copy_kept':
+            import copy
+            keep.append(copy.copy(o)); keep.append(o[:])
+        elif p == 'bool_len': keep.append((bool(o), len(o), o.any(1) if bits else None))
+    return keep
+
+def ref_derived(bits, how):
+    """the content the derived object must have (reference: str operations)"""
+    flip = lambda c: '1' if c == '0' else '0'
+    if how == 'append1': return bits + '1'
+    if how == 'prepend0': return '0' + bits
+    if how == 'slice1': return bits[1:]
+    if how == 'slice_last': return bits[-1:]
+    if how == 'invert': return ''.join(flip(c) for c in bits)
+    if how == 'reversed': return bits[::-1]
+    if how == 'via_mutable_flip': return (flip(bits[0]) + bits[1:]) if bits else ''
+    if how == 'via_mutable_append': return bits + '10'
+    if how == 'and_self': return bits
+    if how == 'xor_ones': return ''.join(flip(c) for c in bits)
+    if how == 'shift1': return (bits[1:] + '0') if bits else ''
+    if how == 'join2': return bits + bits
+    if how == 'cut_first': return bits[:3]
+    return bits
+
+def derive(o, how, bits):
+    import bitstring, pickle, copy
+    C = type(o)
+    if how.startswith('pickle') and how[6:].isdigit(): return pickle.loads(pickle.dumps(o, int(how[6:])))
+    if how == 'deepcopy': return copy.deepcopy(o)
+    if how == 'copy': return copy.copy(o)
+    if how == 'ctor_same': return C(o)
+    if how.startswith('ctor_'): return getattr(bitstring, how[5:])(o)
+    if how == 'slice_all': return o[:]
+    if how == 'add_empty': return o + bitstring.Bits()
+    if how == 'radd_empty': return '' + o
+    if how == 'mul1': return o * 1
+    if how == 'deepcopy_in_dict': return list(copy.deepcopy({'k': [o, o]})['k'])[1]
+    if how == 'pickle_in_set':
+        if type(o).__name__ in ('Bits', 'ConstBitStream'): return list(pickle.loads(pickle.dumps({o}, 4)))[0]
+        return pickle.loads(pickle.dumps([o], 4))[0]
+    if how == 'pickle_twice': return pickle.loads(pickle.dumps(pickle.loads(pickle.dumps(o, 5)), 2))
+    if how == 'append1': return o + '0b1'
+    if how == 'prepend0': return '0b0' + o
+    if how == 'slice1': return o[1:]
+    if how == 'slice_last': return o[-1:] if bits else o[:]
+    if how == 'invert': return ~o if bits else o[:]
+    if how == 'reversed': return o[::-1]
+    if how == 'via_mutable_flip':
+        b = bitstring.BitArray(o)
+        if bits: b.invert(0)
+        return bitstring.Bits(b)
+    if how == 'via_mutable_append':
+        b = bitstring.BitStream(o); b.append('0b10')
+        return bitstring.ConstBitStream(b)
+    if how == 'and_self': return (o & o) if bits else o[:]
+    if how == 'xor_ones': return (o ^ bitstring.Bits(bin='1' * len(bits))) if bits else o[:]
+    if how == 'shift1': return (o << 1) if bits else o[:]
+    if how == 'join2': return bitstring.Bits().join([o, o])
+    if how == 'cut_first':
+        for piece in o.cut(3): return piece
+        return o[:]
+    raise AssertionError(how)
+
+def probe_pair(x, bits, tag=''):
+    """x is said to hold `bits`: compare it with freshly built objects of every class holding the same bits, and with ones that differ in one bit / in length"""
+    import bitstring
+    out = {}
+    def rec(k, fn):
+        try: out[tag + k] = fn()
+        except BaseException as e:
+            if isinstance(e, (KeyboardInterrupt, SystemExit, Hang)): raise
+            out[tag + k] = 'exc:' + type(e).__name__
+    rec('bin', lambda: x.bin)
+    rec('cls', lambda: type(x).__name__)
+    hashable = type(x).__name__ in ('Bits', 'ConstBitStream')
+    other = (bits[:-1] + ('1' if bits[-1] == '0' else '0')) if bits else '0'
+    for cn in CLASSES:
+        f = getattr(bitstring, cn)(bin=bits)
+        g = getattr(bitstring, cn)(bin=other)
+        rec(f'eq_{cn}', lambda: [x == f, f == x, x != f, f != x, x == g, g == x, x != g])
+        if hashable and cn in ('Bits', 'ConstBitStream'):
+            rec(f'hash_{cn}', lambda: hash(x) == hash(f))
+            rec(f'member_{cn}', lambda: [f in {x}, x in {f}, {x: 1}.get(f), {f: 2}.get(x), f in frozenset([x]), len({x, f}), g in {x}])
+    if hashable: rec('hash_stable', lambda: hash(x) == hash(x))
+    else: rec('unhashable', lambda: _unhashable(x))
+    rec('eq_str', lambda: [x == ('0b' + bits if bits else ''), x != ('0b' + bits if bits else '')])
+    return out
+
+def _unhashable(x):
+    try: hash(x)
+    except TypeError: return True
+    return False
+
+def expected_probe(cls, bits, tag=''):
+    exp = {tag + 'bin': bits, tag + 'cls': cls, tag + 'eq_str': [True, False]}
+    hashable = cls in ('Bits', 'ConstBitStream')
+    for cn in CLASSES:
+        exp[tag + f'eq_{cn}'] = [True, True, False, False, False, False, True]
+        if hashable and cn in ('Bits', 'ConstBitStream'):
+            exp[tag + f'hash_{cn}'] = True
+            exp[tag + f'member_{cn}'] = [True, True, 1, 2, True, 1, False]
+    if hashable: exp[tag + 'hash_stable'] = True
+    else: exp[tag + 'unhashable'] = True
+    return exp
+
+def derived_class(cls, how):
+    if how.startswith('ctor_') and how != 'ctor_same': return how[5:]
+    if how == 'via_mutable_flip': return 'Bits'
+    if how == 'via_mutable_append': return 'ConstBitStream'
+    if how == 'join2': return 'Bits'
+    if how == 'radd_empty' or how == 'prepend0': return cls
+    return cls
+
+def gen_derive(rng, tier):
+    lens = [0, 1, 5, 8, 13, 64, 100, 1999, 2000, 2001, 2002, 3601, 8193]
+    N = 90 if tier == 'quick' else 2500
+    for i in range(N):
+        n = rng.choice(lens) if rng.random() < 0.6 else rand_len(rng, tier)
+        hist = rng.sample(PRE_OPS, rng.choice([0, 1, 1, 2, 3]))
+        if i % 3 and 'hash' not in hist and 'dictkey' not in hist: hist.insert(rng.randrange(len(hist) + 1), rng.choice(['hash', 'dictkey', 'setmember']))
+        yield {'op': 'derive', 'cls': CLASSES[i % 4] if i % 2 else rng.choice(['Bits', 'ConstBitStream']), 'bits': rand_bits(rng, n), 'route': rng.choice(ROUTES), 'pos': rng.choice([None, 0, n // 2, n]), 'pre': hist,
+               'how': DERIVATIONS[i % len(DERIVATIONS)] if i < 2 * len(DERIVATIONS) else rng.choice(DERIVATIONS), 'post': rng.sample(PRE_OPS, rng.choice([0, 1]))}
+
+def gen_xproc(rng, tier):
+    lens = [0, 1, 7, 8, 13, 64, 100, 1999, 2000, 2001, 3601, 5000]
+    for i in range(8 if tier == 'quick' else 60):
+        objs, seen = [], set()
+        for j in range(rng.choice([6, 10, 14])):
+            n = rng.choice(lens) if rng.random() < 0.7 else rand_len(rng, tier)
+            bits = rand_bits(rng, n, rng.choice(['rand', 'rand', 'periodic', 'zeros']))
+            if bits in seen: continue                  # one table entry per content
+            seen.add(bits)
+            hist = rng.sample(PRE_OPS, rng.choice([0, 1, 2, 3]))
+            if j % 4 == 3: hist = [h for h in hist if h not in ('hash', 'dictkey', 'setmember', 'frozenset', 'hash_twice', 'hash_lsb0')]        # never hashed before it is pickled
+            objs.append({'cls': CLASSES[j % 4] if j % 3 else rng.choice(['Bits', 'ConstBitStream']), 'bits': bits, 'route': rng.choice(ROUTES), 'pos': rng.choice([None, 0, n // 2, n]), 'pre': hist,
+                         'in_table': rng.random() < 0.8})
+        ws = rng.randrange(1, 2 ** 32)
+        rs = rng.choice([0, ws, rng.randrange(1, 2 ** 32), rng.randrange(1, 2 ** 32), rng.randrange(1, 2 ** 32)])
+        yield {'op': 'xproc', 'objs': objs, 'protocol': rng.choice([2, 3, 4, 5]), 'writer_seed': ws, 'reader': rng.choice(['sub', 'sub', 'main']), 'reader_seed': rs,
+               'writer_lsb0': rng.random() < 0.15}
+
+# -- the two halves of an xproc case; each runs in its own interpreter (python -c ... worker_main) with its own PYTHONHASHSEED
+def xproc_write(c):
+    """build the objects, give them their history, pickle them bare, as dict keys, as set members and inside a frozenset / tuple"""
+    import pickle, bitstring
+    objs, keep = [], []
+    for spec in c['objs']: objs.append(build(spec['cls'], spec['bits'], spec['route'], spec['pos']))
+    if c.get('writer_lsb0'): bitstring.options.lsb0 = True       # the history (hashing included) and the pickling happen under the other bit numbering; the reader uses msb0
+    for o, spec in zip(objs, c['objs']):
+        keep.append(apply_pre(o, [p for p in spec['pre'] if p != 'hash_lsb0'] if c.get('writer_lsb0') else spec['pre'], spec['bits']))
+    hashable = [(o, s) for o, s in zip(objs, c['objs']) if s['cls'] in ('Bits', 'ConstBitStream') and s['in_table']]
+    table = {o: s['bits'] for o, s in hashable}
+    members = {o for o, s in hashable}
+    payload = {'objs': objs, 'table': table, 'members': members, 'frozen': frozenset(members), 'pairs': [(o, o) for o in objs], 'nested': {'t': tuple(table.items())}}
+    try: return pickle.dumps(payload, c['protocol'])
+    finally: bitstring.options.lsb0 = False
+
+def xproc_read(c, blob):
+    import pickle, bitstring
+    p = pickle.loads(blob)
+    out = {'n': len(p['objs']), 'table_len': len(p['table']), 'members_len': len(p['members']), 'frozen_len': len(p['frozen']), 'objs': []}
+    for spec, o, pair in zip(c['objs'], p['objs'], p['pairs']):
+        r = probe_pair(o, spec['bits'])
+        r['pair_same'] = pair[0] is pair[1] and pair[0] == o
+        if spec['cls'] in ('Bits', 'ConstBitStream') and spec['in_table']:
+            lk = {}
+            for cn in ('Bits', 'ConstBitStream'):
+                fresh = getattr(bitstring, cn)(bin=spec['bits'])
+                try: lk[cn] = [p['table'].get(fresh) == spec['bits'], fresh in p['members'], fresh in p['frozen'], p['table'].get(o) == spec['bits'], o in p['members'], fresh in dict(p['nested']['t']),
+                               fresh in set(p['members']), fresh in {k: v for k, v in p['table'].items()}]
+                except Exception as e: lk[cn] = 'exc:' + type(e).__name__
+            r['lookup'] = lk
+        out['objs'].append(r)
+    return out
+
+def worker_main():
+    """python -c '... c13.worker_main()' write|read : the case (and, for read, the pickle as hex) arrive as JSON on stdin; write answers with the pickle as hex, read with the observations as JSON"""
+    import sys, json
+    sys.path.insert(0, REPO)
+    req = json.load(sys.stdin)
+    if sys.argv[1] == 'write': sys.stdout.write(xproc_write(req['case']).hex())
+    else: sys.stdout.write(json.dumps(xproc_read(req['case'], bytes.fromhex(req['blob']))))
+
+def _spawn(mode, hashseed, req):
+    import subprocess, sys, os, json
+    tools = os.path.dirname(os.path.dirname(os.path.abspath(__file__)))
+    env = dict(os.environ, PYTHONPATH=REPO + os.pathsep + tools, VERIF_REPO=REPO)
+    env.pop('PYTHONHASHSEED', None)
+    if hashseed != 'random': env['PYTHONHASHSEED'] = str(hashseed)          # 'random': the interpreter's default, a fresh random seed per process
+    r = subprocess.run([sys.executable, '-c', 'import sys; from props import c13; c13.worker_main()', mode], input=json.dumps(req), capture_output=True, text=True, env=env, timeout=120)
+    if r.returncode != 0: raise RuntimeError(f'{mode} process failed: ' + r.stderr[-300:].replace('\n', ' | '))
+    return r.stdout
+
+def run_xproc(c):
+    import json
+    def f():
+        blob = _spawn('write', c['writer_seed'], {'case': c})
+        if c['reader'] == 'main': return xproc_read(c, bytes.fromhex(blob))      # this process runs with PYTHONHASHSEED=0 (or whatever the caller set): another seed than the writer's
+        return json.loads(_spawn('read', c['reader_seed'], {'case': c, 'blob': blob}))
+    return attempt(f, secs=240)
+
+def run_derive(c):
+    def f():
+        bits = c['bits']
+        o = build(c['cls'], bits, c['route'], c['pos'])
+        hashable = c['cls'] in ('Bits', 'ConstBitStream')
+        keep = apply_pre(o, c['pre'], bits)
+        h1 = hash(o) if hashable and ('hash' in c['pre'] or 'dictkey' in c['pre']) else None
+        d = derive(o, c['how'], bits)
+        keep2 = apply_pre(o, c['post'], bits)
+        out = probe_pair(d, ref_derived(bits, c['how']), 'derived.')
+        out.update(probe_pair(o, bits, 'source.'))
+        out['hash_unchanged'] = (h1 is None) or h1 == hash(o)
+        out['derived_eq_source'] = [d == o, o == d, d != o]
+        return out
+    return attempt(f, secs=20)
+
+def run_odd(c):
+    import bitstring
+    def f():
+        x = build(c['ca'], c['a'], c['ra'], c['pa'])
+        if c['used'] and c['ca'] in ('Bits', 'ConstBitStream'): hash(x)
+        y = odd_operand(c['operand'], c['a'])
+        out = {}
+        def rec(k, fn):
+            try: out[k] = fn()
+            except BaseException as e:
+                if isinstance(e, (KeyboardInterrupt, SystemExit, Hang)): raise
+                out[k] = 'exc:' + type(e).__name__ + ':' + str(e)[:60]
+        if c['lsb0']: bitstring.options.lsb0 = True
+        try:
+            rec('eq', lambda: x == y); rec('ne', lambda: x != y)
+            rec('in_list', lambda: y in [x]); rec('count', lambda: [x, x].count(y))
+            if not c['operand'].startswith(NO_REFLECT):
+                rec('req', lambda: y == x); rec('rne', lambda: y != x); rec('rin_list', lambda: x in [y, None]); rec('tuple_eq', lambda: (x, 1) == (y, 1))
+            rec('eq_again', lambda: x == y)
+            rec('self_eq', lambda: [x == build(c['ca'], c['a']), x != bitstring.Bits(bin=c['a']), x == ('0b' + c['a'] if c['a'] else '')])
+        finally:
+            bitstring.options.lsb0 = False
+        return out
+    return attempt(f, secs=20)
+
 def kind(c): return c['op']
 
 def mk_other(c):
@@ -71,6 +474,9 @@ def run_optpair(c):
 
 def run_impl(c):
     if c['op'] == 'optpair': return run_optpair(c)
+    if c['op'] == 'odd': return run_odd(c)
+    if c['op'] == 'derive': return run_derive(c)
+    if c['op'] == 'xproc': return run_xproc(c)
     import bitstring
     if c['op'] == 'triple':
         def f():
@@ -121,7 +527,50 @@ def run_impl(c):
         return out
     return attempt(f)
 
+def diff_probe(got, exp):
+    return {k: (got.get(k), exp[k]) for k in exp if got.get(k) != exp[k]}
+
+def oracle_new(c, obs):
+    if c['op'] == 'odd':
+        where = f"{c['ca']}({len(c['a'])} bits, route {c['ra']}, pos {c['pa']}{', lsb0' if c['lsb0'] else ''}) compared with the non-promotable operand {c['operand']}"
+        if obs[0] != 'ok': return f"{where}: {obs}"
+        o = obs[1]
+        exp = {'eq': False, 'ne': True, 'in_list': False, 'count': 0, 'req': False, 'rne': True, 'rin_list': False, 'tuple_eq': False, 'eq_again': False, 'self_eq': [True, False, True]}
+        bad = {k: v for k, v in o.items() if v != exp[k]}
+        if bad: return f"{where}: == must be False and != True without an exception (eq/ne: as written, req/rne: operands swapped, in_list/count/tuple_eq: through containers); got {bad}"
+        return None
+    if c['op'] == 'derive':
+        where = f"{c['cls']}({len(c['bits'])} bits, route {c['route']}, pos {c['pos']}) with history {c['pre']}, then {c['how']} (then {c['post']})"
+        if obs[0] != 'ok': return f"{where}: {obs}"
+        o = obs[1]
+        dbits = ref_derived(c['bits'], c['how'])
+        exp = expected_probe(derived_class(c['cls'], c['how']), dbits, 'derived.')
+        exp.update(expected_probe(c['cls'], c['bits'], 'source.'))
+        exp['hash_unchanged'] = True
+        same = dbits == c['bits']
+        exp['derived_eq_source'] = [same, same, not same]
+        bad = diff_probe(o, exp)
+        if bad: return f"{where}: the derived object must behave as a fresh bitstring holding {dbits[:40]}{'...' if len(dbits) > 40 else ''} ({len(dbits)} bits) and the source as before; (observed, expected) differ in {bad}"
+        return None
+    if c['op'] == 'xproc':
+        where = f"{len(c['objs'])} objects pickled (protocol {c['protocol']}) by an interpreter with PYTHONHASHSEED={c['writer_seed']}{' under lsb0' if c.get('writer_lsb0') else ''}, loaded by {'this process' if c['reader'] == 'main' else 'an interpreter with PYTHONHASHSEED=' + str(c['reader_seed'])}"
+        if obs[0] != 'ok': return f"{where}: {obs}"
+        o = obs[1]
+        ntab = sum(1 for s in c['objs'] if s['cls'] in ('Bits', 'ConstBitStream') and s['in_table'])
+        if [o['n'], o['table_len'], o['members_len'], o['frozen_len']] != [len(c['objs']), ntab, ntab, ntab]:
+            return f"{where}: the unpickled containers hold {[o['n'], o['table_len'], o['members_len'], o['frozen_len']]} entries, expected {[len(c['objs']), ntab, ntab, ntab]}"
+        for i, (spec, r) in enumerate(zip(c['objs'], o['objs'])):
+            exp = expected_probe(spec['cls'], spec['bits'])
+            exp['pair_same'] = True
+            if spec['cls'] in ('Bits', 'ConstBitStream') and spec['in_table']: exp['lookup'] = {cn: [True] * 8 for cn in ('Bits', 'ConstBitStream')}
+            bad = diff_probe(r, exp)
+            if bad:
+                return (f"{where}: object {i} = {spec['cls']}({len(spec['bits'])} bits, route {spec['route']}, history before pickling {spec['pre']}) compared with freshly built equal bitstrings "
+                        f"(eq_*: ==/!= both ways, hash_*: equal hashes, member_*: set / dict interchange, lookup: fresh keys in the unpickled dict / set / frozenset): (observed, expected) differ in {bad}")
+        return None
+
 def oracle(c, obs):
+    if c['op'] in ('odd', 'derive', 'xproc'): return oracle_new(c, obs)
     if obs[0] != 'ok': return f"{c} raised {obs}"
     if c['op'] == 'optpair':
         for r in obs[1]:
@@ -150,7 +599,7 @@ def oracle(c, obs):
         if not o['in_set'] or o['dict'] != 1: return f"{where}: equal bitstring not found in set/dict"
     return None
 
-def nontrivial(c, obs): return len(c.get('a', 'x')) > 0
+def nontrivial(c, obs): return len(c.get('a', c.get('bits', 'x'))) > 0
 
 def classify(c, obs): return None
 
